@@ -56,6 +56,10 @@ def lattice_cases(thorough):
         gen = E1.product(space) if thorough else E1.deviations(space, 2)
         for setting in gen:
             yield {"kind": "lattice", "fn": fn, "setting": setting}
+        # the same lattice for a layer whose data is a Vector (shown by its norm): the options are those of the call, whatever the
+        # class of the data
+        for setting in E1.deviations(space, 2):
+            yield {"kind": "lattice", "fn": fn, "setting": dict(setting, data="vector")}
     # two layers in one call: an option of one layer must not leak into the other
     for fn in ("map", "histogram2d"):
         for bits in itertools.product([False, True], repeat=6):
@@ -110,12 +114,14 @@ def call_with(fn, setting, layer_level_operation=True):
         warnings.simplefilter("ignore")
         if fn == "map":
             mesh = make_mesh()
-            lay = mesh.layer("density", **lkw)
+            lay = mesh.layer("velocity" if setting.get("data") == "vector" else "density", **lkw)
             return osyris.map(lay, direction="z", dx=1.0 * osyris.units("cm"), dz=0.5 * osyris.units("cm"),
                               origin=osyris.Vector(0.5, 0.5, 0.5, unit="cm"), resolution={"x": 2, "y": 2, "z": 2}, plot=False, **ckw)
         x = osyris.Array(np.array([0.5, 1.5, 1.6, 2.5, 3.5, 3.6]), unit="cm", name="x")
         y = osyris.Array(np.array([1.0, 1.0, 1.2, 3.0, 3.0, 3.1]), unit="g", name="y")
         v = osyris.Array(np.array([1.0, 2.0, 4.0, 8.0, 16.0, 32.0]), unit="K", name="v")
+        if setting.get("data") == "vector":
+            v = osyris.Vector(np.array([1.0, 2.0, 4.0, 8.0, 16.0, 32.0]), np.arange(6.0), np.ones(6), unit="K", name="v")
         return osyris.histogram2d(x, y, Layer(v, **lkw), resolution=2, xmin=0.0, xmax=4.0, ymin=0.0, ymax=4.0, plot=False, **ckw)
 
 
@@ -155,11 +161,13 @@ def run_lattice(acc, idx, c):
             warnings.simplefilter("ignore")
             if fn == "map":
                 mesh = make_mesh()
-                return osyris.map(mesh.layer("density"), direction="z", dx=1.0 * osyris.units("cm"), dz=0.5 * osyris.units("cm"),
+                return osyris.map(mesh.layer("velocity" if setting.get("data") == "vector" else "density"), direction="z", dx=1.0 * osyris.units("cm"), dz=0.5 * osyris.units("cm"),
                                   origin=osyris.Vector(0.5, 0.5, 0.5, unit="cm"), resolution={"x": 2, "y": 2, "z": 2}, plot=False, operation=op)
             x = osyris.Array(np.array([0.5, 1.5, 1.6, 2.5, 3.5, 3.6]), unit="cm", name="x")
             y = osyris.Array(np.array([1.0, 1.0, 1.2, 3.0, 3.0, 3.1]), unit="g", name="y")
             v = osyris.Array(np.array([1.0, 2.0, 4.0, 8.0, 16.0, 32.0]), unit="K", name="v")
+            if setting.get("data") == "vector":
+                v = osyris.Vector(np.array([1.0, 2.0, 4.0, 8.0, 16.0, 32.0]), np.arange(6.0), np.ones(6), unit="K", name="v")
             return osyris.histogram2d(x, y, Layer(v), resolution=2, xmin=0.0, xmax=4.0, ymin=0.0, ymax=4.0, plot=False, operation=op)
 
     ref = ref_call(eff_op)
